@@ -11,7 +11,7 @@ from xh._untraced import untraced, concrete
 
 TARGETS = {n: "_config_parser.ConfigParser._init_config_parser/_check_for_duplicate_pairs/_TableFormSection.check_for_duplicate_table_forms, "
               "_potential_form_registry._build_potential_forms/_build_table_forms, _eam_potential_builder.EAM_Potential_Builder_FS._density_to_potential_form_dict"
-           for n in ("pair_keys3", "form_signatures3", "pair_keys", "density_keys_fs", "embed_keys", "form_signatures", "table_form_headers", "form_kinds")}
+           for n in ("pair_keys3", "form_signatures3", "pair_keys", "density_keys_fs", "embed_keys", "form_signatures", "table_form_headers", "form_kinds", "added_duplicates")}
 
 SPECIES = "\n[Species]\nA.atomic_number : 1\nA.atomic_mass : 1.0\nB.atomic_number : 2\nB.atomic_mass : 2.0\n"
 HEAD = "[Tabulation]\ntarget : %s\ncutoff : 5.0\nnr : 6\ncutoff_rho : 5.0\nnrho : 6\n\n"
@@ -238,6 +238,117 @@ def form_kinds(name: int, second_kind: int, table_first: bool) -> bool:
 
 # ---------------------------------------------------------------------------
 
+# ---------------------------------------------------------------------------
+# the second definition arrives through `additional` (potable --add-item) instead of being written in the file
+
+ADD_KINDS = (
+  # (section of the first definition and how it is written, candidate keys, value pattern, same-thing predicate)
+  ("pair", PAIR_KEYS[:8]),
+  ("form", (SIGS[:6] + SIGS[:2])),
+  ("header", (HEADERS + HEADERS[:3])),
+  ("density", DENS_KEYS[:8]),
+)
+
+
+def _added_model(kind, k1):
+  if kind == "pair":
+    return HEAD % "LAMMPS" + "[Pair]\n%s : as.constant 1.0\n" % k1, "Pair"
+  if kind == "form":
+    return HEAD % "LAMMPS" + "[Pair]\nA-B : f 2.0\n\n[Potential-Form]\n%s = 1.0\n" % k1, "Potential-Form"
+  if kind == "header":
+    return HEAD % "LAMMPS" + "[Pair]\nA-B : tab\n\n[%s]\nxy : 0 1 1 1 2 1 3 1 4 1\n" % k1, None
+  return HEAD % "setfl_fs" + "[Pair]\nA-A : as.zero\n\n[EAM-Embed]\nA : as.zero\nB : as.zero\n\n[EAM-Density]\n%s : as.constant 1.0\n" % k1 + SPECIES, "EAM-Density"
+
+
+def _added_same(kind, k1, k2):
+  if kind == "pair":
+    return pair_same(k1, k2)
+  if kind == "form":
+    return k1.split("(")[0].strip() == k2.split("(")[0].strip()
+  if kind == "header":
+    return k1.split(":", 1)[1].strip() == k2.split(":", 1)[1].strip()
+  return norm(k1) == norm(k2)
+
+
+def added_outcome(kind, k1, k2):
+  from atsim.potentials.config import ConfigParser
+  from atsim.potentials.config._config_parser import ConfigParserOverrideTuple
+  text, section = _added_model(kind, k1)
+  if kind == "header":
+    item = ConfigParserOverrideTuple(k2, "xy", "0 2 1 2 2 2 3 2 4 2")
+  else:
+    item = ConfigParserOverrideTuple(section, k2, "2.0" if kind == "form" else "as.constant 2.0")
+  logging.disable(logging.CRITICAL)
+  try:
+    try:
+      cp = ConfigParser(io.StringIO(text), additional=[item])
+      tab = Configuration().read_from_parser(cp)
+      return "accepted", tab
+    except ConfigurationException as e:
+      return "rejected", e
+    except Exception as e:  # noqa
+      return type(e).__name__, e
+  finally:
+    logging.disable(logging.NOTSET)
+
+
+def _added_ok(kind, k1, k2):
+  st, x = added_outcome(kind, k1, k2)
+  if _added_same(kind, k1, k2):
+    return st == "rejected"
+  if st != "accepted":
+    return False
+  # the definition written in the file is the one tabulated
+  if kind == "pair":
+    return len(x.potentials) == 2
+  if kind == "form":
+    return k1.split("(")[0].strip() != "f" or abs(x.potentials[0].energy(2.0) - 1.0) < 1e-9
+  if kind == "header":
+    return k1.split(":", 1)[1].strip() != "tab" or abs(x.potentials[0].energy(2.0) - 1.0) < 1e-9
+  return True
+
+
+def added_duplicates(kind: int, k1: int, k2: int) -> bool:
+  """
+  pre: 0 <= kind < 4 and 0 <= k1 < 8 and 0 <= k2 < 8
+  post: _
+  """
+  name, keys = ADD_KINDS[kind]
+  name, a, b = concrete(name), concrete(keys[k1]), concrete(keys[k2])
+  with untraced():
+    if name == "form" and "f" not in (a.split("(")[0].strip(), b.split("(")[0].strip()):
+      return True
+    if name == "header" and "tab" not in (a.split(":", 1)[1].strip(), b.split(":", 1)[1].strip()):
+      return True
+    if name == "header" and a.split(":", 1)[1].strip() != "tab":
+      return True      # the file must define the table the pair uses
+    if name == "form" and a.split("(")[0].strip() != "f":
+      return True
+    return _added_ok(name, a, b)
+
+
+def _rp_added(kind, k1, k2):
+  name, keys = ADD_KINDS[kind]
+  a, b = keys[k1], keys[k2]
+  if name == "form" and a.split("(")[0].strip() != "f":
+    return False, "not a model (the pair's form is not defined in the file)", "agree"
+  if name == "header" and a.split(":", 1)[1].strip() != "tab":
+    return False, "not a model (the pair's table is not defined in the file)", "agree"
+  ok = _added_ok(name, a, b)
+  if ok:
+    return False, "as specified", "agree"
+  st, x = added_outcome(name, a, b)
+  same = _added_same(name, a, b)
+  follows = ""
+  if st == "accepted":
+    try:
+      follows = "; the tabulated function gives %r at r=2 (the file's definition gives 1.0)" % x.potentials[0].energy(2.0)
+    except Exception:  # noqa
+      pass
+  return True, "the file defines %r, the same thing is then added as %r through `additional` / --add-item: %s%s" % (a, b, st, follows) if same else \
+    "the file defines %r and %r is added through `additional`: %s (%s)" % (a, b, st, x), "added-%s-%s" % (name, ("duplicate-" + st) if same else ("distinct-" + st))
+
+
 def _describe(text, want_reject):
   st, x = outcome(text)
   if want_reject:
@@ -319,4 +430,4 @@ def _rp_pairs3(k1, k2, k3):
   return c, d, "pair3-" + k
 
 
-REPLAY = dict(form_signatures3=_rp_forms3, pair_keys3=_rp_pairs3, pair_keys=_rp_pair, density_keys_fs=_rp_density, embed_keys=_rp_embed, form_signatures=_rp_forms, table_form_headers=_rp_headers, form_kinds=_rp_kinds)
+REPLAY = dict(added_duplicates=_rp_added, form_signatures3=_rp_forms3, pair_keys3=_rp_pairs3, pair_keys=_rp_pair, density_keys_fs=_rp_density, embed_keys=_rp_embed, form_signatures=_rp_forms, table_form_headers=_rp_headers, form_kinds=_rp_kinds)
